@@ -331,6 +331,10 @@ class EvalMixin:
         if ty == T.Str: return z3.Contains(cont.t, self.coerce(x, T.Str).t)
         if ty == DisplayDict:
             return z3.Or([self.eq(x, k, st) for k, _ in cont.t] + [z3.BoolVal(False)])
+        if isinstance(ty, (T.Dict, T.Set)) and isinstance(x.ty, T.Opt) and x.ty.t == ty.k:
+            # Optional key: None is never a member of a container of K (Python: `None in {..}` is False, no exception)
+            inner = SV(x.ty.t, T.opt_val(x.ty, x.t))
+            return z3.And(z3.Not(T.opt_is_none(x.ty, x.t)), self.contains(st, cont, inner, node))
         if isinstance(ty, T.Dict): return z3.Select(T.dict_dom(ty, cont.t), self.coerce(x, ty.k).t)
         if isinstance(ty, T.Set): return z3.Select(cont.t, self.coerce(x, ty.k).t)
         if isinstance(ty, T.List):
